@@ -1,5 +1,6 @@
 import BfeVerif.C12.Proofs
 import BfeVerif.C12.ComposeProofs
+import BfeVerif.C11.Props
 /-!
   C12 — cluster lookup combines basic and advanced rules as documented.
   Property theorems only.
@@ -113,6 +114,30 @@ theorem C12_compose_C18 (o : C18.Orc) (basic : Basic) (es : List ERule) (r : C18
 theorem C12_compose_documented (o : C18.Orc) (r : C18.Req) (c : Cond) (h : c.overProved) : eval o r c = evalSpec o r c :=
   eval_eq_evalSpec o r c h
 
+/-- C12 ∘ C11 (end to end on the basic side): for every basic rule file the loader accepts and every request host
+    and path, `LookupCluster` fed with the answer of the basic TREE (C11's radix-contract model, port stripped
+    first) sends the request to the rule the DOCUMENTED basic precedence selects (`C11.specLookupBasic`: host class
+    exact > one-label wildcard > any, no fallback; exact path > longest prefix) when that names a real cluster,
+    else to the first advanced rule in order whose condition holds, else nowhere. -/
+theorem C12_compose_C11 (rules : List C11.Rule) (hok : C11.loadOk rules = true) (host path : List Char)
+    (adv : Option (List Rule)) (hwf : WF (adv.getD [])) :
+    (lookupCluster (some (C11.lookupBasic ((C11.expand rules).map C11.flat) host path)) adv).toOption =
+      specLookup (C11.specLookupBasic (C11.expand rules) host path) (adv.getD []) := by
+  rw [C12_refines _ adv hwf, C11.C11_lookup_refines rules hok host path]
+  rfl
+
+/-- C12 ∘ C11 ∘ C18: nothing taken from the implementation — basic answer from the C11 model, condition values
+    from the C18 model. -/
+theorem C12_compose_C11_C18 (o : C18.Orc) (rules : List C11.Rule) (hok : C11.loadOk rules = true)
+    (host path : List Char) (es : List ERule) (r : C18.Req)
+    (hev : ∀ e ∈ es, (eval o r e.cond).isSome = true) (hwf : ∀ e ∈ es, e.cluster ≠ "") :
+    ∃ res, lookupClusterE o (some (C11.lookupBasic ((C11.expand rules).map C11.flat) host path)) (some es) r = some res ∧
+      res.toOption = specLookupE o (C11.specLookupBasic (C11.expand rules) host path) es r := by
+  obtain ⟨res, h1, h2⟩ := C12_compose_C18 o (some (C11.lookupBasic ((C11.expand rules).map C11.flat) host path)) es r hev hwf
+  refine ⟨res, h1, ?_⟩
+  rw [h2, C11.C11_lookup_refines rules hok host path]
+  rfl
+
 /-! non-vacuity: the documented example of route.md (www.c.com → ADVANCED_MODE → Demo-D1 / Demo-D / Demo-E) -/
 example : WF [⟨false, "Demo-D1"⟩, ⟨true, "Demo-D"⟩, ⟨true, "Demo-E"⟩] := (wfB_iff _).mp (by decide)
 example : lookupCluster (some (some advancedMode)) (some [⟨false, "Demo-D1"⟩, ⟨true, "Demo-D"⟩, ⟨true, "Demo-E"⟩])
@@ -133,5 +158,15 @@ def exReq (p : List UInt8) : C18.Req :=
 example : lookupClusterE exOrc (some (some advancedMode)) (some exRules) (exReq [47, 97, 47, 98]) = some (.cluster "A") := by decide
 example : lookupClusterE exOrc (some (some advancedMode)) (some exRules) (exReq [47, 98]) = some (.cluster "E") := by decide
 example : ∀ e ∈ exRules, (eval exOrc (exReq [47, 98]) e.cond).isSome = true := by decide
+
+/-- the shape of seeded change C12-b: `*` and `*.foo.com` in one product, request two labels below foo.com —
+    the documented precedence (and the tree model) give the any-host rule, not a miss -/
+def starRules : List C11.Rule :=
+  [⟨["*".toList], ["*".toList], "ANY"⟩, ⟨["*.foo.com".toList], ["*".toList], "FOO"⟩]
+example : C11.loadOk starRules = true := by decide
+example : lookupCluster (some (C11.lookupBasic ((C11.expand starRules).map C11.flat) "a.img.foo.com:80".toList "/".toList))
+    (some [⟨true, "ADV"⟩]) = .cluster "ANY" := by decide
+example : lookupCluster (some (C11.lookupBasic ((C11.expand starRules).map C11.flat) "img.foo.com".toList "/".toList))
+    (some [⟨true, "ADV"⟩]) = .cluster "FOO" := by decide
 
 end BfeVerif.C12
